@@ -184,6 +184,9 @@ def core_variants():
                                                  'noyyset_in', 'noyyset_out', 'noyyset_lineno', 'noyyset_debug', 'noyymore'])
     add('r_bison_noyylval', 'r', PLAIN, ['bison-bridge', 'bison-locations', 'noyyget_lval', 'noyyset_lval', 'noyyget_lloc', 'noyyset_lloc'])
     add('nr_stack_nofuncs', 'nr', NOREJ, ['noyy_top_state'])
+    add('nr_base_min', 'nr', ('nul', 'eofrule'), [])          # baselines for the noyy* comparisons (C19.R4)
+    add('r_base_min', 'r', ('nul', 'eofrule'), [])
+    add('r_bison_min', 'r', PLAIN, ['bison-bridge', 'bison-locations'])
     names = set()
     for v in V:
         if v.name in names: raise AssertionError('duplicate variant ' + v.name)
